@@ -7,6 +7,7 @@
  * usage: hrun <mode:serial|par> <ops> <cout> key=value...
  *   keys: seed mseed lps types fan thr spread rng mem t0 threads ckpt period stay budget tterm
  */
+#define VERIF_OWN_BATCH
 #include "vsched.h"
 #include "genmodel.h"
 #include <lp/lp.h>
@@ -14,6 +15,9 @@
 #include <lp/process.h>
 #include <lib/random/random.h>
 #include <gvt/fossil.h>
+#ifdef VERIF_FAKE_PEER
+#include "fakempi_impl.h" /* rank 1 is played by an adversarial peer inside a fake MPI library (rank mode only) */
+#endif
 
 static FILE *f_ops, *f_c, *f_g; /* f_g (rank mode): node-level GVT actions of this rank */
 static int mode_par, mode_dist, mode_rank; /* rank: full trace vocabulary, one file pair per MPI rank */
@@ -231,6 +235,14 @@ uint_fast64_t verif_now(void)
 	uint64_t r = vrng_below(8);
 	vclock += r < 4 ? 0 : r < 6 ? 1 : vperiod + 1;
 	return vclock;
+}
+
+/* batch=0: the built-in 64 process_msg() calls per worker-loop iteration; batch=n: a seeded number in 1..n (GVT rounds, fossil
+ * collections and MPI polls become n/64 times denser per processed event) */
+static unsigned hr_batch;
+unsigned verif_batch(unsigned dflt)
+{
+	return hr_batch ? 1 + (unsigned)vrng_below(hr_batch) : dflt;
 }
 
 void verif_trace(unsigned kind, uint64_t a, uint64_t b, uint64_t c)
@@ -540,6 +552,11 @@ static void print_stats(const char *outcome)
 	    (unsigned long long)next_ord, (unsigned long long)vs_steps, (unsigned long long)vs_switches, s_below_gvt,
 	    s_rb_mismatch, s_double_free, s_rb_checked, s_rb_after_fossil, s_gvt_decrease, s_gvt_disagree, n_alloc, n_free,
 	    n_votes, s_vote_false_pred, n_ev[39], n_ev[38], n_fossil_attempts);
+#ifdef VERIF_FAKE_PEER
+	printf(",\"peer_events\":%lu,\"peer_antis\":%lu,\"peer_anti_with_event\":%lu,\"peer_responses\":%lu,\"peer_got_events\":%lu,"
+	       "\"peer_got_antis\":%lu,\"peer_rounds\":%lu,\"peer_forced_deliveries\":%lu",
+	    fm_n_ev, fm_n_anti, fm_n_anti_first, fm_n_resp, fm_n_recv_ev, fm_n_recv_anti, fm_n_rounds, fm_n_forced);
+#endif
 	printf(",\"points\":[");
 	for(int t = 0; t < vs_registered && t < VS_MAXT; ++t)
 		printf("%s{\"last\":%u,\"stage\":%u}", t ? "," : "", vs_point[t], drain_stage[t]);
@@ -606,6 +623,7 @@ int main(int argc, char **argv)
 	vs_stay = argu(argc, argv, "stay", 2);
 	vs_budget = argu(argc, argv, "budget", 3000000);
 	vs_burst = argu(argc, argv, "burst", 0);
+	hr_batch = (unsigned)argu(argc, argv, "batch", 0);
 	uint64_t tterm_q = argu(argc, argv, "tterm", 0);
 	g_tterm_q = tterm_q;
 	freed_ord = calloc(1u << 24, 1);
@@ -639,8 +657,20 @@ int main(int argc, char **argv)
 	    .committed = gm_can_end};
 	if(RootsimInit(&conf))
 		return 2;
+#ifdef VERIF_FAKE_PEER
+	fm_budget = (unsigned)argu(argc, argv, "pev", 300);
+	fm_cancel_pct = (unsigned)argu(argc, argv, "pcancel", 25);
+	fm_reflect_pct = (unsigned)argu(argc, argv, "preflect", 30);
+	fm_lag = (unsigned)argu(argc, argv, "plag", 3);
+	fm_spread = (unsigned)argu(argc, argv, "pspread", 16);
+	fm_max_age = (unsigned)argu(argc, argv, "page", 40);
+	fm_cancel_span = (unsigned)argu(argc, argv, "pspan", 400);
+	fm_window = (unsigned)argu(argc, argv, "pwin", 24);
+	fm_ntypes = GM.n_types;
+#else
 	if(mode_dist || mode_rank)
 		vs_budget = argu(argc, argv, "budget", UINT64_MAX / 2); /* ranks wait for each other: wall-clock watchdog instead */
+#endif
 	if(mode_par || mode_dist) {
 		vs_on_hang = on_hang;
 		vs_init((int)threads);
